@@ -266,4 +266,25 @@ example : mergeKey [b!"ab", b!"c"] ≠ mergeKey [b!"a", b!"bc"] := by
 example : splitId (joinId [b!"a,b", b!"", b!"c\\"]) = [b!"a,b", b!"", b!"c\\"] := by decide
 example : splitId (joinId [b!""]) = [b!""] := by decide
 
+
+/-! ### which entries of the queue root are queues (F-29) -/
+
+/-- `stat.Mode&unix.S_IFMT == unix.S_IFDIR` -/
+def isDirMode (mode : Nat) : Bool := mode &&& 0o170000 == 0o040000
+/-- the test before the repair: `stat.Mode&unix.DT_DIR != 0` — `DT_DIR` = 4 is a directory-entry type, here it selects the
+others-read permission bit -/
+def legacyIsDir (mode : Nat) : Bool := mode &&& 4 != 0
+
+set_option maxRecDepth 20000 in
+/-- **C06 (a queue directory is found again whatever its permission bits).** For all 4096 settings of the permission, set-id
+and sticky bits a directory is recognised as one, and a regular file never is. -/
+theorem C06_queue_dir_recognised_for_every_mode :
+    ∀ p : Fin 4096, (isDirMode (0o040000 ||| p.val) && !isDirMode (0o100000 ||| p.val)) = true := by
+  decide +kernel
+
+/-- the test before the repair skipped a directory created under umask 027 and took a world-readable file for a directory -/
+theorem legacy_F29 : legacyIsDir 0o040750 = false ∧ legacyIsDir 0o100644 = true := by decide
+
+theorem C06_fact_dir_test : Facts.route_dir_test = ["stat.Mode&unix.S_IFMT != unix.S_IFDIR"] := by decide
+
 end C06
